@@ -85,7 +85,10 @@ CFG = dict(
                   "cross-checked by the Go-side oracle filepath.Rel(filepath.Clean(base), result)",
                   "'beneath' = lexical containment (cleaned base + ordinary names); symbolic links inside the base directory are "
                   "outside the property (the property is about the returned path string)"],
-    assumptions=["the theorems are about the function of (base, path); that concurrent calls do not interfere (no shared mutable state "
+    assumptions=["location, not spelling: the implementation's output is cleaned lexically (the model's Clean) before the containment "
+                 "predicate and before the comparison with Join(base, path) for dot-free paths (theorem C17_judged_modulo_clean: this is "
+                 "the proved predicate); an output that names the same location in another spelling ('./a', uncleaned base) is byte drift",
+                 "the theorems are about the function of (base, path); that concurrent calls do not interfere (no shared mutable state "
                  "inside ResolveUrlPath) is checked by the concurrent phase and the race detector, not proved",
                  "POSIX file paths: separator '/', no volume names, filepath.FromSlash is the identity (GOOS=linux)",
                  "base is non-empty (ResolveUrlPath(\"\", p) returns an absolute path below \"/\"; excluded by the property's quantifier)"],
